@@ -513,3 +513,184 @@ func VerifC04File(kind string, leaf int, mode int) {
 	}
 	vfy.Cover("file inspected")
 }
+
+// ---- structural mutations of whole files (C04) ----
+
+type mutBox struct {
+	start, end int
+	parent     int // index into the list, -1 for top level
+	typ        string
+}
+
+var mutContainers = map[string]bool{"moov": true, "trak": true, "mdia": true, "minf": true, "dinf": true, "stbl": true,
+	"mvex": true, "moof": true, "traf": true, "mfra": true, "edts": true}
+
+// mutWalk lists every box of the file in pre-order (reference walker over the bytes).
+func mutWalk(b []byte, from, to, parent int, out []mutBox) []mutBox {
+	pos := from
+	for pos+8 <= to {
+		size := int(be32(b[pos : pos+4]))
+		if size < 8 || pos+size > to {
+			break
+		}
+		typ := string(b[pos+4 : pos+8])
+		idx := len(out)
+		out = append(out, mutBox{pos, pos + size, parent, typ})
+		if mutContainers[typ] {
+			out = mutWalk(b, pos+8, pos+size, idx, out)
+		}
+		pos += size
+	}
+	return out
+}
+
+func mutResize(b []byte, boxes []mutBox, i int, delta int) {
+	for p := boxes[i].parent; p >= 0; p = boxes[p].parent {
+		s := int(be32(b[boxes[p].start:boxes[p].start+4])) + delta
+		b[boxes[p].start], b[boxes[p].start+1], b[boxes[p].start+2], b[boxes[p].start+3] = byte(s>>24), byte(s>>16), byte(s>>8), byte(s)
+	}
+}
+
+// VerifC04Mut: a skeleton file after one structural mutation — box i removed ("drop"),
+// duplicated ("dup"), swapped with its next sibling ("swap"), the file truncated four bytes into
+// box i ("trunc"), or box i moved to the end of the file ("last") — is decoded by every path and
+// mode, printed and re-encoded under the panic, step and allocation monitors. The enclosing size
+// fields are kept consistent for drop / dup so that the decoders get as far as the semantics.
+func VerifC04Mut(kind string, mutation string, i int, mode int) {
+	src, _ := fileSkeleton(kind)
+	boxes := mutWalk(src, 0, len(src), -1, nil)
+	if i >= len(boxes) {
+		return
+	}
+	bx := boxes[i]
+	var in []byte
+	switch mutation {
+	case "drop":
+		tmp := append([]byte{}, src...)
+		mutResize(tmp, boxes, i, -(bx.end - bx.start))
+		in = append(append([]byte{}, tmp[:bx.start]...), tmp[bx.end:]...)
+	case "dup":
+		tmp := append([]byte{}, src...)
+		mutResize(tmp, boxes, i, bx.end-bx.start)
+		in = append(append(append([]byte{}, tmp[:bx.end]...), tmp[bx.start:bx.end]...), tmp[bx.end:]...)
+	case "swap":
+		if i+1 >= len(boxes) {
+			return
+		}
+		// next sibling: the next box in pre-order that starts where this one ends, same parent
+		j := -1
+		for k := i + 1; k < len(boxes); k++ {
+			if boxes[k].parent == bx.parent && boxes[k].start == bx.end {
+				j = k
+				break
+			}
+		}
+		if j < 0 {
+			return
+		}
+		nb := boxes[j]
+		in = append([]byte{}, src[:bx.start]...)
+		in = append(in, src[nb.start:nb.end]...)
+		in = append(in, src[bx.start:bx.end]...)
+		in = append(in, src[nb.end:]...)
+	case "trunc":
+		in = append([]byte{}, src[:bx.start+4]...)
+	case "last":
+		if bx.parent >= 0 {
+			return
+		}
+		in = append(append(append([]byte{}, src[:bx.start]...), src[bx.end:]...), src[bx.start:bx.end]...)
+	default:
+		panic("harness: unknown mutation " + mutation)
+	}
+	vfy.InputLen(len(in))
+	var f *File
+	var err error
+	switch mode {
+	case 0:
+		f, err = DecodeFile(bytes.NewReader(in))
+	case 1:
+		f, err = DecodeFileSR(bits.NewFixedSliceReader(in))
+	case 2:
+		f, err = DecodeFile(bytes.NewReader(in), WithDecodeMode(DecModeLazyMdat))
+	case 3:
+		f, err = DecodeFile(bytes.NewReader(in), WithDecodeFlags(DecISMFlag))
+	default:
+		f, err = DecodeFile(bytes.NewReader(in), WithDecodeFlags(DecStartOnMoof))
+	}
+	vfy.Cover("returned")
+	if err != nil {
+		return
+	}
+	vfy.Cover("mutated file decoded")
+	var ib bytes.Buffer
+	_ = f.Info(&ib, "all:1", "", "  ")
+	if mode != 2 {
+		var ob bytes.Buffer
+		_ = f.Encode(&ob)
+		sw := bits.NewFixedSliceWriter(len(in) + 64)
+		_ = f.EncodeSW(sw)
+		f.FragEncMode = EncModeBoxTree
+		var tb bytes.Buffer
+		_ = f.Encode(&tb)
+	}
+}
+
+// VerifC04LazyMdat: a file whose mdat box announces an arbitrary (symbolic) 32- or 64-bit size is
+// decoded with the media data left on disk: the decoder skips the payload by seeking, so a size
+// beyond the end of the data, or one that wraps around, must end in an error or a clean result —
+// not in a backward seek that is read again for ever.
+func VerifC04LazyMdat(large bool, nPayload int, trailing bool) {
+	in := encBox(CreateFtyp())
+	if large {
+		in = append(in, 0, 0, 0, 1, 'm', 'd', 'a', 't')
+		in = append(in, vfy.Bytes("largesize", 8)...)
+	} else {
+		in = append(in, vfy.Bytes("size", 4)...)
+		in = append(in, 'm', 'd', 'a', 't')
+	}
+	in = append(in, vfy.Bytes("payload", nPayload)...)
+	if trailing {
+		in = append(in, encBox(&FreeBox{})...)
+	}
+	vfy.InputLen(len(in))
+	f, err := DecodeFile(bytes.NewReader(in), WithDecodeMode(DecModeLazyMdat))
+	vfy.Cover("returned")
+	if err != nil {
+		return
+	}
+	vfy.Cover("lazy file decoded")
+	var ib bytes.Buffer
+	_ = f.Info(&ib, "all:1", "", "  ")
+}
+
+// VerifC04LazyWrap: the mdat of a fragmented skeleton file gets a 64-bit size that wraps around so
+// that skipping its payload would land on the start of an earlier top-level box (chosen by
+// vfy.Choose) or somewhere inside it: lazy decoding must stop, not decode the same boxes for ever.
+func VerifC04LazyWrap(kind string, delta int) {
+	src, _ := fileSkeleton(kind)
+	boxes := mutWalk(src, 0, len(src), -1, nil)
+	var tops []mutBox
+	mdat := -1
+	for _, b := range boxes {
+		if b.parent < 0 {
+			if b.typ == "mdat" && mdat < 0 {
+				mdat = len(tops)
+			}
+			tops = append(tops, b)
+		}
+	}
+	if mdat <= 0 {
+		return
+	}
+	target := tops[vfy.Choose("target", mdat+1)].start + delta // an earlier box, or the mdat itself
+	m := tops[mdat]
+	// mdat with a 16-byte header; after the header the reader is at m.start+16
+	size := uint64(int64(target) - int64(m.start)) // so that start + size == target (mod 2^64)
+	in := append([]byte{}, src[:m.start]...)
+	in = append(in, 0, 0, 0, 1, 'm', 'd', 'a', 't', byte(size>>56), byte(size>>48), byte(size>>40), byte(size>>32), byte(size>>24), byte(size>>16), byte(size>>8), byte(size))
+	in = append(in, src[m.start+8:]...)
+	vfy.InputLen(len(in))
+	_, _ = DecodeFile(bytes.NewReader(in), WithDecodeMode(DecModeLazyMdat))
+	vfy.Cover("returned")
+}
